@@ -1,6 +1,6 @@
 # replay of a solver counterexample against the real library (exit 1 = reproduces)
 import sys, warnings
-sys.path.insert(0, '/tmp/sr/C03-m5')
+sys.path.insert(0, '/tmp/sr/C03-m6')
 warnings.simplefilter('ignore')
 import numpy as np
 from svgpathtools import *
@@ -36,18 +36,16 @@ def derivF(ps, t, k):
     x = sum((c[0]*t**j for j,c in enumerate(cs)), F(0)); y = sum((c[1]*t**j for j,c in enumerate(cs)), F(0))
     return complex(float(x), float(y))
 
-from svgpathtools.path import bez2poly, poly2bez
+from svgpathtools.bezier import bezier2polynomial, polynomial2bezier, bezier_point
 import numpy as np
-ps = [-1j, 0j, 0j]
-qs = [-1j, -1j, 0j]
-t = -1.0
-seg = QuadraticBezier(*ps)
-for c in [seg.point(t), seg.poly()(t), seg.points([t,0,1])[0], np.poly1d(bez2poly(seg))(t), seg.derivative(t,1), seg.derivative(t,2)]:
-    pass  # first round of queries
-for i, (nm, q) in enumerate(zip(['start', 'control', 'end'], qs)):
-    if i in [1]: setattr(seg, nm, q)
-got = complex(seg.points([t,0,1])[0]); want = complex(bernF(qs, t))
-if abs(got - want) > 1e-9 * max(1.0, max(abs(p) for p in qs)) * max(1.0, abs(t))**2:
-    REPRODUCED('QuadraticBezier.points after reassigning control points: got %r, oracle %r' % (got, want))
+ps = [0j, (-0.25+0.25j), (-0.75+0j)]; t = 0.0
+scale = 1 + max(abs(p) for p in ps)
+co = bezier2polynomial(ps)
+for form in (list(co), tuple(co), np.array(list(co))):
+    back = polynomial2bezier(form)
+    if len(back) != len(ps) or any(abs(a - b) > 1e-9 * scale for a, b in zip(back, ps)):
+        REPRODUCED('polynomial2bezier(%s(bezier2polynomial(%r))) = %r' % (type(form).__name__, ps, back))
+if abs(np.poly1d(list(co))(t) - bernF(ps, t)) > 1e-9 * scale * max(1, abs(t)) ** len(ps): REPRODUCED('bezier2polynomial(%r) evaluated at %r is %r, the curve point is %r' % (ps, t, np.poly1d(list(co))(t), bernF(ps, t)))
+if abs(bezier_point(ps, t) - bernF(ps, t)) > 1e-9 * scale * max(1, abs(t)) ** len(ps): REPRODUCED('bezier_point(%r, %r) = %r, the curve point is %r' % (ps, t, bezier_point(ps, t), bernF(ps, t)))
 
 NOT_REPRODUCED()
